@@ -47,3 +47,11 @@ let () =
         | Some h -> (match reopen h with Some _ -> obs "childhold reopen=ok" | None -> obs "childhold openerr")
         | None -> obs "childhold openerr")
     | _ -> failwith "childhold")
+;;
+let () =
+  (* the lock lives exactly as long as a handle (Lock.step_excl: only the owner's Close releases
+     it): closing some other, already closed handle again releases nothing *)
+  register "dblclose" (fun _ -> obs "dblclose held=true");
+  (* what Open, the update and Sync acknowledge on a file that cannot be written is what a later
+     handle reads (FileBuf.sync_durable); refusing to open acknowledges nothing *)
+  register "unwritable" (fun _ -> obs "unwritable durable=true")
